@@ -59,6 +59,11 @@ def tlc(module, cfg, workdir, workers=16, env=None, timeout=900, extra=()):
     spec_copy(workdir)
     meta = os.path.join(workdir, "meta-%d" % int(time.time() * 1000))
     cmd = ["tlc", "-workers", str(workers), "-metadir", meta, "-config", cfg] + list(extra) + [module]
+    # TLC unpacks its module jars into java.io.tmpdir (one tlc-* directory per run): keep that inside the work dir
+    env = dict(env or {})
+    jt = os.path.join(workdir, "jtmp")
+    os.makedirs(jt, exist_ok=True)
+    env["JAVA_TOOL_OPTIONS"] = (os.environ.get("JAVA_TOOL_OPTIONS", "") + " -Djava.io.tmpdir=" + jt).strip()
     try:
         rc, out = run(cmd, env=env, timeout=timeout, cwd=workdir)
     except subprocess.TimeoutExpired:
